@@ -13,6 +13,8 @@ for d in sorted(S.glob('C*[ab]*')):
     if not d.is_dir(): continue
     sid = d.name
     meta = json.loads((d/'meta.json').read_text())
+    if meta.get('obsolete'):
+        rows.append((sid, {'error': 'obsolete: ' + meta['obsolete']})); continue
     if only and sid not in only:
         rows.append((sid, meta.get('check_result', {}))); continue
     pid = meta['property']
